@@ -7,6 +7,7 @@ import world
 def run(ctx):
     quick = ctx.tier == "quick"
     sl = {"rate": world.SLICES["rate"], "rate2": world.SLICES["rate2"],
+          "rate3": world.SLICES["rate3"],
           "model": world.SLICES["model"], "pre": world.SLICES["pre"]}
     curve_check.run_engine(
         ctx, "C09_", sl,
@@ -15,8 +16,11 @@ def run(ctx):
         walk_limit=None if not quick else 150,
         curves=("syn1", "syn2", "rec1", "syn3"))
     ctx.assumptions += [
-        "expected value = standalone IndentationRater.rate(datasets=fresh "
-        "fitted copy) through get_rater, compared bit-for-bit",
+        "expected value = standalone IndentationRater (assembled from the "
+        "public pieces: load_training_set, regressor table, constructor) "
+        ".rate(datasets=fresh fitted copy), compared bit-for-bit",
+        "caller-owned training sets (an (X, y) tuple, a user directory) are "
+        "edited in place between ratings (variants A/B of slice rate3)",
         "cross-process determinism is covered by comparing values computed "
         "in different worker processes (content-addressed ids)",
         "[0,10] is required for the tree regressors of the catalogue only",
